@@ -44,6 +44,20 @@ Theorem C31_bytes_read_le_cap_plus_chunk :
 Proof. exact fetch_url_bytes. Qed.
 Print Assumptions C31_bytes_read_le_cap_plus_chunk.
 
+(* 3b. The total on the range path.  By (3) a task created for chunk ck takes at most task_cap ck = min(size of range ck,
+       max_fetch_bytes) + 1 bytes, finished or not; by (4) the tasks created are one per range plus `hedged`.  For a
+       probed length z <= max_fetch_bytes the caps add up to at most
+       max_fetch_bytes + (number of ranges) + (number of hedges) * (chunk_size + 1). *)
+Theorem C31_total_range_bytes_le_cap_plus_chunks :
+  forall z chunk maxf hedged,
+    0 < chunk -> 0 <= z <= maxf ->
+    let ranges := compute_ranges z chunk in
+    let n := length ranges in
+    Forall (fun ck => (ck < n)%nat) hedged ->
+    sumZ (map (task_cap ranges maxf) (seq 0 n ++ hedged)) <= maxf + Z.of_nat n + len hedged * (chunk + 1).
+Proof. exact total_range_bytes_bound. Qed.
+Print Assumptions C31_total_range_bytes_le_cap_plus_chunks.
+
 (* 4. Range tasks created in one attempt: one per range, plus hedges - each of a distinct chunk, at most
       max_speculative_hedges of them (when that is positive), never more than the number of chunks. *)
 Theorem C31_hedges_bounded :
